@@ -36,6 +36,8 @@ def gen_one(rng, seed):
         else:
             k = rng.choice(["pause", "resume", "save", "pause", "resume"])
             cmds += [[k]] * rng.choice([1, 1, 2, 4])   # bursts
+            if rng.random() < 0.12:
+                cmds.append(["shutdown"])              # a shutdown right behind a burst: the queue may be full
     cmds += [["sleep", 0.004], ["shutdown", "retry"], ["pause"], ["status"]]
     sp["cmds"] = cmds
     return sp
